@@ -384,6 +384,42 @@ func (g *genState) batch() *model.Batch {
 	return b
 }
 
+// childMergeBatch generates a batch whose child batches hold Merge operands
+// on keys that already exist in those child collections (values that live
+// in older sections or in the lower level by now), plus one unique top-level
+// Set.  Falls back to an ordinary batch when no child has a key.
+func (g *genState) childMergeBatch() *model.Batch {
+	var names []string
+	for _, n := range g.tree.ChildNames() {
+		if len(g.tree.Ch[n].KV) > 0 {
+			names = append(names, n)
+		}
+	}
+	if len(names) == 0 || !g.gp.Merge {
+		return g.batch()
+	}
+	g.batchNo++
+	b := &model.Batch{Ops: []model.Op{{Kind: 'S', Key: []byte(g.keys[g.r.Intn(len(g.keys))]), Val: g.uniqueVal()}}}
+	for _, n := range names {
+		if len(b.Children) > 0 && g.r.Chance(1, 2) {
+			continue
+		}
+		keys := g.tree.Ch[n].SortedKeys()
+		cb := &model.Batch{}
+		for _, k := range keys {
+			if len(cb.Ops) < 3 && g.r.Chance(2, 3) {
+				cb.Ops = append(cb.Ops, model.Op{Kind: 'M', Key: []byte(k), Val: g.val()})
+			}
+		}
+		if len(cb.Ops) == 0 {
+			cb.Ops = append(cb.Ops, model.Op{Kind: 'M', Key: []byte(keys[0]), Val: g.val()})
+		}
+		b.Children = append(b.Children, model.ChildBatch{Name: n, B: cb})
+	}
+	g.tree.Apply(b, MergeFold)
+	return b
+}
+
 var mergerParks = []string{"merger.ingested", "merger.merged"}
 var persisterParks = []string{"persister.updated", "store.persist.begin", "store.persist.segments", "store.persist.footer", "store.persist.end",
 	"store.compact.begin", "store.compact.segments", "store.compact.footer", "store.compact.swapped"}
@@ -603,6 +639,14 @@ func GenProgram(r *Rng, prop string, cfg Config, gp GenParams) *Program {
 			add(Step{K: "resume", A: "merger"})
 			add(Step{K: "check"})
 			fresh = false
+			if gp.Children && gp.Merge && r.Chance(3, 4) {
+				// the stack the merger has just handed over was ingested
+				// before that persister round completed: operands on child
+				// keys whose values have moved into the lower level meanwhile
+				add(Step{K: "batch", B: g.childMergeBatch()})
+				add(Step{K: "merge", A: mergeKind()})
+				add(Step{K: "check"})
+			}
 		}
 		if gp.PersistAfterBatchPct > 0 && lower && r.Intn(100) < gp.PersistAfterBatchPct {
 			add(Step{K: "merge", A: "plain"})
